@@ -4,7 +4,7 @@ From Coq Require Import ZArith List Bool String.
 From Flocq Require Core.
 From GD Require C07.Dec17.
 From GD Require Import C07.Token C07.TokenProofs C07.Number C07.NumberProofs C07.Entry C07.EntryProofs
-  C07.EntryProofs2 C07.ScalarCode C07.EntryProofs3 C07.Witness C07.Tables C07.Digits Gen.Formats.
+  C07.EntryProofs2 C07.ScalarCode C07.EntryProofs3 C07.Fragment C07.FragmentProofs C07.Witness C07.Tables C07.Digits Gen.Formats.
 Import ListNotations.
 Local Open Scope Z_scope.
 
@@ -340,3 +340,56 @@ Theorem dec_bin_roundtrip : forall P : Z, 17 <= P ->
   Generic_fmt.round Zaux.radix2 (FLT.FLT_exp (-1074) 53) (Generic_fmt.Znearest c2)
     (Generic_fmt.round C07.Dec17.radix10 (FLX.FLX_exp P) (Generic_fmt.Znearest c10) x) = x.
 Proof. exact C07.Dec17.dec17_roundtrip. Qed.
+
+(* ------------------------------------------------------------------ *)
+(* the other lines of a fragment *)
+
+(* fragment_roundtrip: the header _GD_FlushFragment writes (/VERSION /ENDIAN
+   [arm] /PROTECT /FRAMEOFFSET /ENCODING), read line by line by the directive
+   parser starting from the state gd_open gives a fragment, yields the declared
+   Standards Version in pedantic mode and exactly the attributes that were
+   written (the frame offset is the inherited one when no line was written) *)
+Theorem fragment_roundtrip : forall c a force_off inherit_off inherit_prot,
+  ctx_ok c -> attr_ok c a ->
+  parse_header (initial_state inherit_off inherit_prot) (print_header c a force_off)
+  = Some (mkPS (mkR (w_std c) true) (read_attr a force_off inherit_off)).
+Proof. exact header_roundtrip. Qed.
+
+Theorem hidden_line_roundtrip : forall c name,
+  ctx_ok c -> 9 <= w_std c -> no_nul name ->
+  match tokenise (pvers_ge (rctx_of c) 6) (print_hidden c name) with
+  | inr toks => parse_hidden (rctx_of c) toks
+  | inl _ => None
+  end = Some name.
+Proof. exact hidden_roundtrip. Qed.
+
+Theorem alias_line_roundtrip : forall c name target,
+  ctx_ok c -> 9 <= w_std c -> no_nul name -> code_ok c target ->
+  match tokenise (pvers_ge (rctx_of c) 6) (print_alias c name target) with
+  | inr toks => parse_alias (rctx_of c) toks
+  | inl _ => None
+  end = Some (name, target).
+Proof. exact alias_roundtrip. Qed.
+
+(* /INCLUDE with any combination of namespace, prefix and suffix (the writer of
+   the current source: "ns.prefix" is one token) *)
+Theorem include_line_roundtrip : forall c file ns px sx,
+  ctx_ok c -> 10 <= w_std c -> no_nul file -> oaffix_ok ns -> oaffix_ok px -> oaffix_ok sx ->
+  match tokenise (pvers_ge (rctx_of c) 6) (items_text false (include_items false file ns px sx)) with
+  | inr toks => parse_include (rctx_of c) toks
+  | inl _ => None
+  end = Some (file, ns, px, sx).
+Proof. exact include_roundtrip. Qed.
+
+(* the translator confirms the current WriteInclude is that variant *)
+Theorem include_writer_variant : include_ns_px_blank = false.
+Proof. reflexivity. Qed.
+
+(* history: the variant with a blank between namespace and prefix lost the prefix *)
+Theorem include_blank_variant_refuted :
+  match tokenise true (items_text false (include_items true (bytes_of_string "sub") (Some (bytes_of_string "ns"))
+                                                         (Some (bytes_of_string "p")) None)) with
+  | inr toks => parse_include (mkR 10 true) toks
+  | inl _ => None
+  end = Some (bytes_of_string "sub", Some (bytes_of_string "ns"), None, Some (bytes_of_string "p")).
+Proof. vm_compute. reflexivity. Qed.
